@@ -91,8 +91,31 @@ func preferredType(dt datatype.DataType) (t reflect.Type, p *panicInfo, err erro
 
 // noPreferredGoType: the library reports (with an error, not a panic) that the type has no preferred Go representation
 func noPreferredGoType(dt datatype.DataType) bool {
-	_, p, err := preferredType(dt)
-	return p == nil && err != nil
+	if _, p, err := preferredType(dt); p == nil && err != nil {
+		return true
+	}
+	// … or a component of it has none (the error then surfaces when that component is decoded)
+	switch t := dt.(type) {
+	case *datatype.List:
+		return noPreferredGoType(t.ElementType)
+	case *datatype.Set:
+		return noPreferredGoType(t.ElementType)
+	case *datatype.Map:
+		return noPreferredGoType(t.KeyType) || noPreferredGoType(t.ValueType)
+	case *datatype.Tuple:
+		for _, f := range t.FieldTypes {
+			if noPreferredGoType(f) {
+				return true
+			}
+		}
+	case *datatype.UserDefined:
+		for _, f := range t.FieldTypes {
+			if noPreferredGoType(f) {
+				return true
+			}
+		}
+	}
+	return false
 }
 
 // scalarAlts: the accepted Go types of a scalar CQL type, preferred type first (doc.go; pointer variants are derived)
